@@ -1101,10 +1101,10 @@ class Columns(Widget, WidgetContainerMixin, WidgetContainerListContentsMixin):
         Send event to appropriate column.
         May change focus on button 1 press.
         """
-        widths, _, size_args = self.get_column_sizes(size, focus=focus)
+        widths, heights, size_args = self.get_column_sizes(size, focus=focus)
 
         x = 0
-        for i, (width, w_size, (w, _)) in enumerate(zip(widths, size_args, self.contents)):
+        for i, (width, height, w_size, (w, _)) in enumerate(zip(widths, heights, size_args, self.contents)):
             if col < x:
                 return False
             w = self.contents[i][0]  # noqa: PLW2901
@@ -1113,6 +1113,10 @@ class Columns(Widget, WidgetContainerMixin, WidgetContainerListContentsMixin):
             if col >= end:
                 x = end + self.dividechars
                 continue
+
+            if row >= height:
+                # below a column that is shorter than the tallest one: nothing of that widget is drawn there
+                return False
 
             focus = focus and self.focus_position == i
             if is_mouse_press(event) and button == 1 and w.selectable():
